@@ -171,6 +171,10 @@ func (w *c10World) justified(scope int, users, passwords []string) bool {
 }
 
 type c10Session struct {
+	// Eligible: the START is a supported method in its protocol version (ASCII login with
+	// minor version 0, PAP login with minor version 1). Anything else must never PASS.
+	Eligible   bool
+	Aborted    bool // a CONTINUE with the abort flag was sent
 	Flow       string
 	Pkts       []pktPlan
 	Users      []string // every user name the packets carry
@@ -215,24 +219,28 @@ func c10Flow(r *gen.R, w *c10World, scope int) c10Session {
 		}
 	}
 	s := c10Session{User: user, Password: pw, PwRel: pwRel, Users: []string{user}, Passwords: []string{pw}}
-	switch r.Intn(12) {
+	switch r.Pick(0, 1, 2, 3, 4, 5, 6, 7, 7, 7, 8, 9, 10, 11) {
 	case 0, 1:
 		rc := asciiLogin(user, true, pw, 0)
-		s.Flow, s.Pkts, s.WellFormed = "ascii/user-in-start", rc.Pkts, true
+		s.Flow, s.Pkts, s.WellFormed, s.Eligible = "ascii/user-in-start", rc.Pkts, true, true
 	case 2, 3:
 		rc := asciiLogin(user, false, pw, 0)
-		s.Flow, s.Pkts, s.WellFormed = "ascii/user-in-continue", rc.Pkts, user != ""
+		s.Flow, s.Pkts, s.WellFormed, s.Eligible = "ascii/user-in-continue", rc.Pkts, user != "", true
 	case 4, 5:
 		rc := papLogin(user, pw, 1)
-		s.Flow, s.Pkts, s.WellFormed = "pap", rc.Pkts, true
+		s.Flow, s.Pkts, s.WellFormed, s.Eligible = "pap", rc.Pkts, true, true
 	case 6:
 		at := 2 + r.Intn(2)
 		inStart := r.Bool()
 		rc := asciiLogin(user, inStart, pw, at)
-		s.Flow, s.Pkts = fmt.Sprintf("ascii-abort@%d", at), rc.Pkts
+		s.Flow, s.Pkts, s.Eligible, s.Aborted = fmt.Sprintf("ascii-abort@%d", at), rc.Pkts, true, true
 	case 7:
 		action, atype, service, minor := r.Pick(1, 2, 4), r.Pick(1, 2, 3, 4, 5, 6), r.Intn(10), r.Intn(2)
 		s.Flow = "start-combination"
+		s.Eligible = action == 1 && (atype == 1 && minor == 0 || atype == 2 && minor == 1)
+		if !s.Eligible {
+			s.Flow = fmt.Sprintf("unsupported-start(action%d,type%d,service%d,minor%d)", action, atype, service, minor)
+		}
 		s.Pkts = []pktPlan{{Type: 1, Minor: minor, Body: bAuthenStart(action, r.Intn(16), atype, service, user, "p", "r", pw)}}
 		// follow with a CONTINUE carrying the password as well
 		if r.Bool() {
@@ -245,6 +253,7 @@ func c10Flow(r *gen.R, w *c10World, scope int) c10Session {
 		s.Passwords = append(s.Passwords, user)
 	case 9:
 		s.Flow = "start-mid-exchange"
+		s.Eligible = true
 		rc := asciiLogin(user, false, pw, 0)
 		other := w.Names[r.Intn(len(w.Names))]
 		rc.Pkts[1] = pktPlan{Type: 1, Body: bAuthenStart(1, 1, 1, 1, other, "p", "r", "")}
@@ -253,6 +262,7 @@ func c10Flow(r *gen.R, w *c10World, scope int) c10Session {
 	case 10:
 		// a well-formed ASCII START that also parses as a CONTINUE: long port/rem_addr
 		s.Flow = "ascii/start-also-parses-as-continue"
+		s.Eligible = true
 		port := string(gen.Fill('p', 127))
 		rem := string(gen.Fill('r', 127))
 		body := bAuthenStart(1, r.Pick(0, 1), 1, r.Pick(0, 1), user, port, rem, "")
@@ -267,10 +277,23 @@ func c10Flow(r *gen.R, w *c10World, scope int) c10Session {
 		s.Flow = "ascii/continue-with-data-and-odd-flags"
 		rc := asciiLogin(user, true, pw, 0)
 		rc.Pkts[1].Body = bAuthenContinue(r.Pick(0, 2, 4, 0xfe), pw, "d"+r.Alnum(5))
-		s.Pkts, s.WellFormed = rc.Pkts, true
+		s.Pkts, s.WellFormed, s.Eligible = rc.Pkts, true, true
 	}
 	if len(pw) > 72 || pw == "" || user == "" {
 		s.WellFormed = false
+	}
+	// aborted = a CONTINUE that really carries the abort flag was sent (not the first packet,
+	// which is a START whatever else it may parse as)
+	s.Aborted = false
+	for i, p := range s.Pkts {
+		if i == 0 {
+			continue
+		}
+		if v, c := rfc8907.Decode(rfc8907.AuthenContinue, p.Body); c == rfc8907.OK && v.Ints["flags"]&1 != 0 {
+			if _, c2 := rfc8907.Decode(rfc8907.AuthenStart, p.Body); c2 != rfc8907.OK {
+				s.Aborted = true
+			}
+		}
 	}
 	return s
 }
@@ -352,11 +375,16 @@ func runC10(b *mon.B) {
 				if known {
 					ck = cred.Kind
 				}
-				b.Class("%s/%s/pw=%s/final=%d/mux=%d", s.Flow, ck, s.PwRel, finals[si], nSess)
+				b.Class("%s/%s/pw=%s/final=%d/mux=%d", strings.SplitN(s.Flow, "(", 2)[0], ck, s.PwRel, finals[si], nSess)
 				b.Count(fmt.Sprintf("final_status_%d", finals[si]), 1)
 				wit := func() map[string]interface{} {
 					return map[string]interface{}{"flow": s.Flow, "user": clip(s.User), "user_credential": ck, "password_relation": s.PwRel, "scope": w.Scopes[scope].Name,
 						"final_status": finals[si], "multiplexed_sessions": nSess, "via_yaml": ci%2 == 0}
+				}
+				if passed[si] && !s.Eligible {
+					b.Violate(caseNo, "C10/pass-for-unsupported-method-or-version", fmt.Sprintf("session [%s] was answered PASS; only ASCII logins (minor version 0) and PAP logins (minor version 1) may pass", s.Flow), wit())
+				} else if passed[si] && s.Aborted {
+					b.Violate(caseNo, "C10/pass-after-abort", fmt.Sprintf("session [%s] sent the abort flag and was still answered PASS", s.Flow), wit())
 				}
 				if passed[si] && !w.justified(scope, s.Users, s.Passwords) {
 					b.Violate(caseNo, fmt.Sprintf("C10/unjustified-pass/%s/%s/pw-%s", strings.SplitN(s.Flow, "(", 2)[0], ck, s.PwRel),
